@@ -660,6 +660,22 @@ fn judge_c13(o: &mut Outcome, ops: &[Op], max: usize, interval: u64, r: &CaseOut
                 if frames.iter().any(|f| f.outcome == Att::Withhold) {
                     o.class("idempotent:returned-while-slow-execution-still-pending");
                 }
+            } else if let Some(Err(e)) = r.results.get(&op.op) {
+                // the call returned an error: a definitive error wins at once; an ignorable one may only be
+                // returned once every started execution has finished
+                let definitive_seen = frames.iter().any(|f| matches!(f.outcome, Att::Err("invalid")) && f.answered_seq.map(|s| s < ret).unwrap_or(false));
+                if !definitive_seen {
+                    if let Some(f) = frames.iter().find(|f| f.recv_seq < ret && f.answered_seq.map(|s| s > ret).unwrap_or(true)) {
+                        o.violation("c13b:error-returned-while-an-execution-was-still-running", format!("request {} returned the error {e:?} although its execution at node {} (attempt {}) had not been answered yet and no definitive error had arrived", op.op, f.node, f.attempt), replay.clone());
+                    } else {
+                        o.class("idempotent:last-error-after-all-executions-finished");
+                    }
+                    if frames.iter().any(|f| matches!(f.outcome, Att::Ok | Att::OkAfter(_))) && frames.iter().all(|f| f.answered_seq.map(|s| s < ret).unwrap_or(false)) {
+                        o.violation("c13b:answer-lost", format!("request {}: a node answered successfully before the call returned, but the call returned {e:?}", op.op), replay.clone());
+                    }
+                } else {
+                    o.class("idempotent:definitive-error-returned");
+                }
             } else if frames.iter().any(|f| matches!(f.outcome, Att::Ok)) {
                 o.violation("c13b:answer-lost", format!("request {}: a node answered successfully but the call returned {:?}", op.op, r.results.get(&op.op)), replay.clone());
             }
@@ -694,14 +710,42 @@ pub fn run_c13_b(ctx: &Ctx) -> Outcome {
                 o.script[0] = Att::OkAfter(interval * 8);
             }
         }
-        cases.push((ops, max, interval));
+        cases.push((ops, max, interval, 0u8));
+    }
+    // Executions that FAIL (Fallthrough retry policy, so every execution is exactly one frame): an ignorable
+    // error (overloaded) must not end the call while another execution is still running or may still start;
+    // a definitive error (invalid) ends it; with max >= plan length the plan runs out (a fiber finds no target).
+    for _ in 0..n_cases {
+        let max = rng.usize(1, 4);
+        let interval = *rng.pick(&[4u64, 9]);
+        let mut ops = Vec::new();
+        for _ in 0..6 {
+            let slow = Att::OkAfter(interval * *rng.pick(&[6u64, 12, 25]));
+            let mut script = vec![slow];
+            for _ in 0..4 {
+                script.push(match rng.below(6) {
+                    0 | 1 => Att::Err("overloaded"),
+                    2 => Att::Err("invalid"),
+                    3 => Att::OkAfter(rng.below(interval * 2)),
+                    _ => Att::Ok,
+                });
+            }
+            if rng.chance(1, 3) {
+                // everything but the slow first execution fails with an ignorable error
+                for a in script.iter_mut().skip(1) {
+                    *a = Att::Err("overloaded");
+                }
+            }
+            ops.push(Op { op: next_op(), script, idempotent: true, api: *rng.pick(&[Api::QueryUnpaged, Api::ExecuteUnpaged]), cl: Consistency::One });
+        }
+        cases.push((ops, max, interval, 2u8));
     }
     for chunk in cases.chunks(6) {
         let res: Vec<(Vec<Op>, usize, u64, CaseOut)> = rt.block_on(async {
             let mut js = Vec::new();
-            for (ops, max, interval) in chunk.iter().cloned() {
+            for (ops, max, interval, policy) in chunk.iter().cloned() {
                 js.push(tokio::spawn(async move {
-                    let r = run_ops(ops.clone(), 0, Some((max, interval)), false).await;
+                    let r = run_ops(ops.clone(), policy, Some((max, interval)), false).await;
                     (ops, max, interval, r)
                 }));
             }
@@ -721,7 +765,7 @@ pub fn run_c13_b(ctx: &Ctx) -> Outcome {
             break;
         }
     }
-    for c in ["idempotent", "non-idempotent", "idempotent:speculative-execution-started", "non-idempotent:single-execution-despite-slow-node", "idempotent:returned-while-slow-execution-still-pending"] {
+    for c in ["idempotent:definitive-error-returned", "idempotent", "non-idempotent", "idempotent:speculative-execution-started", "non-idempotent:single-execution-despite-slow-node", "idempotent:returned-while-slow-execution-still-pending"] {
         out.require_class(c);
     }
     out
